@@ -138,9 +138,6 @@ proof fn lemma_mapped_ok<V>(n: NfaBuilder<char, V>, sid: int, table: Seq<u32>, a
 // ---- stage B: the partially built array encodes the placed part of the NFA ----
 spec fn code_of(table: Seq<u32>, c: char) -> u32 { map_code(table, c as u32).unwrap() }
 
-spec fn cwb_used(inv: Map<int, int>, h: BuildHelper) -> bool {
-    forall|y: int| #[trigger] inv.contains_key(y) && h_active(h, y) ==> h_used_index(h, y)
-}
 
 // the array `st` encodes the placed part of the NFA.
 //   map: NFA id -> slot (1 = not placed), inv: slot -> NFA id (non-root states), owner: slot with a BASE -> NFA id,
@@ -362,6 +359,7 @@ proof fn lemma_cwb_finish<V>(n: NfaBuilder<char, V>, st: Seq<State>, st2: Seq<St
 }
 
 // what build_double_array establishes: the array encodes the NFA through the placement map idmap
+#[verifier::opaque]
 spec fn cw_encodes<V>(st: Seq<State>, table: Seq<u32>, n: NfaBuilder<char, V>, idmap: Seq<u32>) -> bool {
     let len = n.states@.len();
     &&& idmap.len() == len && idmap[0] == 0
@@ -385,6 +383,33 @@ spec fn cw_encodes<V>(st: Seq<State>, table: Seq<u32>, n: NfaBuilder<char, V>, i
             && st[idmap[s] as int].output_pos == n.states@[s].output_pos
 }
 
+// pointwise accessors of the opaque cwb (cur = -1 form)
+proof fn lemma_cwb_basic<V>(n: NfaBuilder<char, V>, st: Seq<State>, tb: Seq<u32>, map: Seq<u32>, inv: Map<int, int>, owner: Map<int, int>, done: Set<int>, t: int)
+    requires cwb(n, st, tb, map, inv, owner, done, -1, 0, Seq::empty(), 0), 0 <= t < n.states@.len(),
+    ensures map.len() == n.states@.len(), map[0] == 0, map[1] == 1, map[t] < st.len(), !inv.contains_key(0), !inv.contains_key(1),
+        t >= 2 && map[t] != 1 ==> inv.contains_key(map[t] as int) && inv[map[t] as int] == t,
+{ reveal(cwb); }
+
+proof fn lemma_cwb_slot<V>(n: NfaBuilder<char, V>, st: Seq<State>, tb: Seq<u32>, map: Seq<u32>, inv: Map<int, int>, owner: Map<int, int>, done: Set<int>, y: int)
+    requires cwb(n, st, tb, map, inv, owner, done, -1, 0, Seq::empty(), 0), 0 <= y < st.len(),
+    ensures !inv.contains_key(y) ==> st[y].check == 1,
+        inv.contains_key(y) ==> 2 <= inv[y] < n.states@.len() && map[inv[y]] == y && st[y].check == map[nfa_parent(n, inv[y]).0],
+{ reveal(cwb); }
+
+proof fn lemma_cwb_done_edge<V>(n: NfaBuilder<char, V>, st: Seq<State>, tb: Seq<u32>, map: Seq<u32>, inv: Map<int, int>, owner: Map<int, int>, done: Set<int>, s: int, c: char)
+    requires cwb(n, st, tb, map, inv, owner, done, -1, 0, Seq::empty(), 0), done.contains(s), nfa_edges(n, s).contains_key(c),
+    ensures st[map[s] as int].base.is_some(), map[nfa_edges(n, s)[c] as int] == st[map[s] as int].base.unwrap()@ ^ code_of(tb, c),
+{ reveal(cwb); }
+
+proof fn lemma_cwb_map_inj<V>(n: NfaBuilder<char, V>, st: Seq<State>, tb: Seq<u32>, map: Seq<u32>, inv: Map<int, int>, owner: Map<int, int>, done: Set<int>, t1: int, t2: int)
+    requires cwb(n, st, tb, map, inv, owner, done, -1, 0, Seq::empty(), 0), 0 <= t1 < n.states@.len(), 0 <= t2 < n.states@.len(), t1 != 1, t2 != 1,
+        map[t1] != 1, map[t2] != 1, map[t1] == map[t2],
+    ensures t1 == t2,
+{
+    lemma_cwb_basic(n, st, tb, map, inv, owner, done, t1);
+    lemma_cwb_basic(n, st, tb, map, inv, owner, done, t2);
+}
+
 proof fn lemma_cwb_final<V>(n: NfaBuilder<char, V>, st: Seq<State>, stf: Seq<State>, tb: Seq<u32>, map: Seq<u32>, inv: Map<int, int>, owner: Map<int, int>, done: Set<int>)
     requires cwb(n, st, tb, map, inv, owner, done, -1, 0, Seq::empty(), 0), nfa_tree(n),
         forall|t: int| 0 <= t < n.states@.len() && t != 1 ==> #[trigger] map[t] != 1 && done.contains(t),
@@ -394,13 +419,13 @@ proof fn lemma_cwb_final<V>(n: NfaBuilder<char, V>, st: Seq<State>, stf: Seq<Sta
             && stf[map[s] as int].output_pos == n.states@[s].output_pos,
     ensures cw_encodes(stf, tb, n, map),
 {
-    reveal(cwb);
     let len = n.states@.len();
+    lemma_cwb_basic(n, st, tb, map, inv, owner, done, 0);
+    assert forall|t: int| 0 <= t < len && t != 1 implies (#[trigger] map[t]) < stf.len() && map[t] != 1 by {
+        lemma_cwb_basic(n, st, tb, map, inv, owner, done, t);
+    }
     assert forall|t1: int, t2: int| 0 <= t1 < len && 0 <= t2 < len && t1 != 1 && t2 != 1 && #[trigger] map[t1] == #[trigger] map[t2] implies t1 == t2 by {
-        if t1 >= 2 { assert(inv[map[t1] as int] == t1); }
-        if t2 >= 2 { assert(inv[map[t2] as int] == t2); }
-        if t1 == 0 && t2 >= 2 { assert(inv.contains_key(map[t2] as int)); }
-        if t2 == 0 && t1 >= 2 { assert(inv.contains_key(map[t1] as int)); }
+        lemma_cwb_map_inj(n, st, tb, map, inv, owner, done, t1, t2);
     }
     assert forall|s: int, c: char| 0 <= s < len && s != 1 && #[trigger] nfa_edges(n, s).contains_key(c) implies ({
             let x = map[nfa_edges(n, s)[c] as int];
@@ -409,29 +434,63 @@ proof fn lemma_cwb_final<V>(n: NfaBuilder<char, V>, st: Seq<State>, stf: Seq<Sta
             &&& stf[x as int].check == map[s]
         }) by {
         let t = nfa_edges(n, s)[c] as int;
-        assert(done.contains(s));
+        lemma_cwb_done_edge(n, st, tb, map, inv, owner, done, s, c);
+        lemma_cwb_basic(n, st, tb, map, inv, owner, done, s);
+        lemma_cwb_basic(n, st, tb, map, inv, owner, done, t);
         assert(nfa_parent(n, t) == (s, c));
-        assert(inv.contains_key(map[t] as int) && inv[map[t] as int] == t);
-        assert(st[map[t] as int].check == map[nfa_parent(n, inv[map[t] as int]).0]);
+        lemma_cwb_slot(n, st, tb, map, inv, owner, done, map[t] as int);
     }
     assert forall|s: int, mc: u32| 0 <= s < len && s != 1 && stf[map[s] as int].base.is_some()
             && 0 <= #[trigger] (stf[map[s] as int].base.unwrap()@ ^ mc) < stf.len()
             && stf[(stf[map[s] as int].base.unwrap()@ ^ mc) as int].check == map[s] implies
             exists|c: char| nfa_edges(n, s).contains_key(c) && code_of(tb, c) == mc
                 && map[nfa_edges(n, s)[c] as int] == (stf[map[s] as int].base.unwrap()@ ^ mc) by {
+        lemma_cwb_basic(n, st, tb, map, inv, owner, done, s);
         let b = stf[map[s] as int].base.unwrap()@;
         let x = (b ^ mc) as int;
+        lemma_cwb_slot(n, st, tb, map, inv, owner, done, x);
         assert(st[x].check == map[s] && map[s] != 1);
         assert(inv.contains_key(x));
         let t = inv[x];
         let p = nfa_parent(n, t);
         assert(nfa_parent_ok(n, t, p));
-        assert(st[x].check == map[p.0]);
-        assert(p.0 == s);
+        lemma_cwb_basic(n, st, tb, map, inv, owner, done, p.0);
+        lemma_cwb_map_inj(n, st, tb, map, inv, owner, done, p.0, s);
         let c = p.1;
-        assert(nfa_edges(n, s).contains_key(c) && nfa_edges(n, s)[c] == t);
-        assert(done.contains(s));
-        assert(map[t] == st[map[s] as int].base.unwrap()@ ^ code_of(tb, c));
+        lemma_cwb_done_edge(n, st, tb, map, inv, owner, done, s, c);
         lemma_xor_inj_cw(b, mc, code_of(tb, c));
+        assert(nfa_edges(n, s).contains_key(c) && code_of(tb, c) == mc && map[nfa_edges(n, s)[c] as int] == (b ^ mc));
     }
+    reveal(cw_encodes);
+}
+
+// pointwise accessors of the opaque cw_encodes
+proof fn lemma_enc_basic<V>(st: Seq<State>, table: Seq<u32>, n: NfaBuilder<char, V>, idmap: Seq<u32>, t: int)
+    requires cw_encodes(st, table, n, idmap), 0 <= t < n.states@.len(), t != 1,
+    ensures idmap.len() == n.states@.len(), idmap[0] == 0, idmap[t] < st.len(), idmap[t] != 1,
+        st[idmap[t] as int].fail == (if n.states@[t].fail == 1 { 1u32 } else { idmap[n.states@[t].fail as int] }),
+        st[idmap[t] as int].output_pos == n.states@[t].output_pos,
+{ reveal(cw_encodes); }
+
+proof fn lemma_enc_inj<V>(st: Seq<State>, table: Seq<u32>, n: NfaBuilder<char, V>, idmap: Seq<u32>, t1: int, t2: int)
+    requires cw_encodes(st, table, n, idmap), 0 <= t1 < n.states@.len(), 0 <= t2 < n.states@.len(), t1 != 1, t2 != 1, idmap[t1] == idmap[t2],
+    ensures t1 == t2,
+{ reveal(cw_encodes); }
+
+proof fn lemma_enc_edge<V>(st: Seq<State>, table: Seq<u32>, n: NfaBuilder<char, V>, idmap: Seq<u32>, s: int, c: char)
+    requires cw_encodes(st, table, n, idmap), 0 <= s < n.states@.len(), s != 1, nfa_edges(n, s).contains_key(c),
+    ensures st[idmap[s] as int].base.is_some(),
+        idmap[nfa_edges(n, s)[c] as int] == st[idmap[s] as int].base.unwrap()@ ^ code_of(table, c),
+        st[idmap[nfa_edges(n, s)[c] as int] as int].check == idmap[s],
+{ reveal(cw_encodes); }
+
+proof fn lemma_enc_nospur<V>(st: Seq<State>, table: Seq<u32>, n: NfaBuilder<char, V>, idmap: Seq<u32>, s: int, mc: u32) -> (c: char)
+    requires cw_encodes(st, table, n, idmap), 0 <= s < n.states@.len(), s != 1, st[idmap[s] as int].base.is_some(),
+        0 <= (st[idmap[s] as int].base.unwrap()@ ^ mc) < st.len(),
+        st[(st[idmap[s] as int].base.unwrap()@ ^ mc) as int].check == idmap[s],
+    ensures nfa_edges(n, s).contains_key(c), code_of(table, c) == mc,
+        idmap[nfa_edges(n, s)[c] as int] == (st[idmap[s] as int].base.unwrap()@ ^ mc),
+{
+    reveal(cw_encodes);
+    choose|c: char| nfa_edges(n, s).contains_key(c) && code_of(table, c) == mc && idmap[nfa_edges(n, s)[c] as int] == (st[idmap[s] as int].base.unwrap()@ ^ mc)
 }
